@@ -108,6 +108,15 @@ theorem mapTail_ne_nil {α : Type} (f : α → α) (l : List α) (h : l ≠ []) 
 theorem mapTail_length {α : Type} (f : α → α) (l : List α) : (mapTail f l).length = l.length := by
   cases l <;> simp [mapTail]
 
+theorem mapTail_getElem? {α : Type} (f : α → α) (l : List α) (i : Nat) :
+    (mapTail f l)[i]? = if i = 0 then l[i]? else l[i]?.map f := by
+  cases l with
+  | nil => simp [mapTail]
+  | cons a as =>
+    cases i with
+    | zero => simp [mapTail]
+    | succ n => simp [mapTail]
+
 theorem mem_mapTail {α : Type} (f : α → α) (l : List α) (x : α) (hx : x ∈ mapTail f l) :
     x ∈ l.head? ∨ ∃ y ∈ l.tail, x = f y := by
   cases l with
